@@ -9,8 +9,9 @@ CFG = dict(
                'back with a tree whose root is not the Truncated fallback and that has no Derived-source fallback leaf.',
     level_note='PARTIAL: no COMPLETENESS theorem about the backward chainer model (its soundness is C21_sound; the model is compared with build_proof_tree on every library-path case); '
                'completeness of the real chainer is established only on the explored inputs. '
-               'Known class 1 (finding): a clause in which a comparison or negated atom precedes the atom that binds its variables is skipped by the chainer, so '
-               'answers derived through it get the Derived-source fallback.',
+               'The full statement is refuted on the chainer model by C22_refuted_comparison_first and C22_refuted_cycle_cut (vm_compute witnesses, replayed on the real code by the corpus). '
+               'Known classes (findings): 1 a comparison/negated atom before the atom that binds its variables (clause skipped, Derived-source fallback); '
+               '3 recursion over cyclic data (a cycle-cut failure is cached as a Derived-source fallback leaf).',
     technique='Coq proof (existence of complete derivations within the reference depth) + per-run oracle on the real `.why` / build_proof_tree output',
     bin='c22', n_quick=220, n_thorough=4000,
     corr_name='Model/ProvChain.v (build_proof_tree model) vs build_proof_tree on the library paths; harness derived data vs Coq reference model',
